@@ -10,7 +10,7 @@ OWNED = [
     (r"ensures\.INV\.retarget-(after-fall|interval)", ["C10"]),
     (r"ensures\.INV\.fixed-retarget-time", ["C10"]),
     (r"make_next_pulse_slot/ensures\.phase-jump-buffer", ["C10"]),
-    (r"make_next_pulse_slot/ensures\.(no-conflict|earliest-allowed|no-delay-starts-at-end-or-barrier)", ["C03"]),
+    (r"make_next_pulse_slot/ensures\.(no-conflict|earliest-allowed|no-delay-starts-at-end-or-barrier|no-delay-exact-when-barriers-passed)", ["C03"]),
     (r"make_next_pulse_slot/ensures\.after-phase-barriers", ["C07", "C03"]),
     (r"add_pulse/ensures\.no-conflict", ["C03"]),
     (r"add_pulse/ensures\.after-phase-barriers", ["C07", "C03"]),
